@@ -35,7 +35,7 @@ T = {
  'C08': "3 pre-emptions",
  'C09': "4 ops / 5–6 keys / 3 op kinds on the deep pool",
  'C10': "3 keys in every shape",
- 'C11': "5 ops on 2 keys, all op kinds, 2 mutations per window",
+ 'C11': "5 ops on 2 keys, all op kinds on 3 keys, 3 collapse levels in the windows",
  'C12': "14 keys, 2 follow-ups",
  'C13': "3 changes on the 2-key checkpoint, 2 changes in the fault run",
  'C14': "longer fields, k=2, all seeds",
